@@ -349,7 +349,7 @@ impl Prop for C19Prop {
             },
             Section {
                 name: "races",
-                kind: SectionKind::Enum { count: tier.pick(6, 24) },
+                kind: SectionKind::Enum { count: tier.pick(6, 12) },
                 exhaustive: false,
                 what: "concurrent writer processes and reader threads on one target (sampled schedules)",
             },
